@@ -394,3 +394,7 @@ import obligations.C09  # noqa: E402,F401
 from vf.registry import alias  # noqa: E402
 
 alias("C02.describe_keeps_quoted_names_and_folds_unquoted_ones", "C09.describe_and_show_scope_literals", "DESCRIBE TABLE / VIEW finds an object under a quoted lower- or mixed-case schema or table name exactly as written, and under the upper-cased name when unquoted")
+
+import obligations.C04  # noqa: E402,F401
+
+alias("C02.status_messages_and_context_use_the_folded_name", "C04.ddl_status_names_object", "the object name in CREATE / DROP status messages - and hence the name compared with the session's current schema on DROP - is the folded name, also when it is spelled through IDENTIFIER('...')")
